@@ -227,11 +227,7 @@ func (st *State) intBinopInt(op token.Token, a, b *Term, bits int, signed bool, 
 				return w(IntMul(a, p))
 			}
 			// floor division by 2^n == arithmetic shift
-			r := mk(SInt, 0, "(div %s %s)", a.S, p.S)
-			if a.Const {
-				r = IntT(new(big.Int).Rsh(a.CI, uint(n.Int64()))) // big.Int Rsh is arithmetic
-			}
-			return w(r)
+			return w(IntFloorDivPos(a, p))
 		}
 		// symbolic count: ite ladder over 0..bits-1
 		var res *Term
@@ -246,7 +242,7 @@ func (st *State) intBinopInt(op token.Token, a, b *Term, bits int, signed bool, 
 			if op == token.SHL {
 				v = w(IntMul(a, p))
 			} else {
-				v = mk(SInt, 0, "(div %s %s)", a.S, p.S)
+				v = IntFloorDivPos(a, p)
 			}
 			res = Ite(Eq(b, IntT64(int64(n))), v, res)
 		}
